@@ -106,14 +106,19 @@ def singles(tier, seed, start):
         for t in typeable_inputs(nm, None):
             if tier == "quick" and t in (OPT(PAIR(U8, U8)), RES(OPT(U8))) and nm not in ("^^>",):
                 continue
-            i += 1
-            pid = "p%04d" % i
-            ctx = Ctx(rng(seed, pid), itlen=2 if (tier == "quick" and nm == "?&!>" and t != IT(U8)) else 3)
-            inp = ctx.value(t)
-            st = OPS[nm](ctx, t)
-            if ctx.rnd.random() < 0.3:
-                st.deferred = True
-            ps.append(build(pid, "join", ctx, inp, [st], st.out, group="single"))
+            # every operator alone, written instantly AND as the first operator of a later step (`~op`): the latter starts
+            # from the previous step's result instead of from the initial expression (operators whose method takes
+            # `&mut self` - find, find_map, try_fold, nth.. - need that result to be a mutable place)
+            for deferred in (False, True):
+                if deferred and nm in ("?&!>", "<->", "=>[]", "=>[]u") :
+                    continue
+                i += 1
+                pid = "p%04d" % i
+                ctx = Ctx(rng(seed, pid), itlen=2 if ((tier == "quick" and nm == "?&!>" and t != IT(U8)) or deferred) else 3)
+                inp = ctx.value(t)
+                st = OPS[nm](ctx, t)
+                st.deferred = deferred
+                ps.append(build(pid, "join", ctx, inp, [st], st.out, group="single"))
     return ps, i
 
 
